@@ -1,6 +1,8 @@
 import MlModel.Lemmas.Resume
 import MlModel.Lemmas.ResumeChain
 import MlModel.Lemmas.AggCore
+import MlModel.Lemmas.ResumeSliced
+import MlModel.Lemmas.PipeAggInst
 /-!
 # C10 — checkpoint and resume continue exactly where iteration stopped
 
@@ -430,6 +432,150 @@ theorem C10_pipeline_chain_any_iter (data : List β) (cfg : Cfg) (hn : 1 ≤ cfg
 
 end chains
 
+/-! ## Runners whose aggregation is SLICED: the state is a finite map with DYNAMIC keys
+
+`Model/ResumeSliced.lean`: `agg_state` is the map `MetricKey → state` of `Model/PipeAgg.lean` (all five slicer
+kinds, stacked aggregates, `disable_slicing`); `update_state` adds the entry of a slice value the first time a
+batch shows it, so a checkpoint taken after ≥ 1 aggregated batch holds keys `create_state()` does not have.
+`from_state` hands a copy of the captured map to the constructor, whose filter (`PipeAgg.initFilter`) keeps the
+entries whose `metrics` names one of the runner's aggregates.  The seeded regression `C10-m5` (copy only the
+keys of `create_state()`) is `Witness/C10.lean: C10_m5_restore_drops_slices_witness`. -/
+
+section sliced
+variable {Rv : Type} {R : Recoverable α} {Inv : R.It → Prop} {rem : R.It → List α}
+
+/-- **Restore keeps EVERY key of the captured state** — created by `create_state()` or added by
+`update_state` for a slice value seen before the checkpoint: for every iterator reachable in any history
+(`SInv`), `from_state(it.state)` succeeds, the restored iterator has the SAME state map, will deliver
+the same batches, and is reachable again (so this applies to restores of restored iterators). -/
+theorem C10_sliced_restore_keeps_every_key (h : Refines R Inv rem) (D : SlicedDef α X S Rv)
+    (hf : ∀ a, (D.f a).length ≤ 1) (all : List PipeAgg.Batch) (it : SlicedIt R S)
+    (hi : SlicedIt.SInv Inv rem D all it) :
+    ∃ it', SlicedIt.restore R D (SlicedIt.state R it) = .ok it' ∧ it'.agg = it.agg ∧
+      (∀ mk, it'.agg.toOption.bind (PipeAgg.AList.get? · mk) = it.agg.toOption.bind (PipeAgg.AList.get? · mk)) ∧
+      (rem it'.base.src).flatMap D.f = (rem it.base.src).flatMap D.f ∧
+      SlicedIt.SInv Inv rem D all it' := by
+  obtain ⟨it', h1, h2, h3⟩ := (slicedRec_refines h D hf all).restore_state it hi
+  obtain ⟨_, Dl, hD, hagg⟩ := hi
+  have e : it'.agg = it.agg := by
+    rw [hagg, h2.agg_eq (dl := Dl) (by rw [h3]; exact hD)]; rfl
+  exact ⟨it', h1, e, fun mk => by rw [e], h3, h2⟩
+
+/-- At EVERY moment of every history (any number of checkpoints and restores, cuts anywhere, restores of
+restored iterators): what was delivered on the surviving timeline followed by what the iterator will
+still deliver is the uninterrupted run's output, and the WHOLE state map — every output key × every slice
+key — is that of ONE PASS over exactly the batches delivered on the surviving timeline. -/
+theorem C10_pipeline_sliced_prefix (h : Refines R Inv rem) (D : SlicedDef α X S Rv)
+    (hf : ∀ a, (D.f a).length ≤ 1) (it : R.It) (hi : Inv it) (ops : List Op) :
+    ∃ r, SrcRun.run (slicedRec R D) (SrcRun.init (slicedRec R D) (SlicedIt.fresh R D it none)) ops = .ok r ∧
+      r.delivered ++ (rem (SlicedIt.base (R := R) r.it).src).flatMap D.f = (rem it).flatMap D.f ∧
+      SlicedIt.agg (R := R) r.it = PipeAgg.run D.P r.delivered := by
+  obtain ⟨r, h1, h2, h3⟩ := (slicedRec_refines h D hf ((rem it).flatMap D.f)).history
+    (SlicedIt.fresh R D it none) (SlicedIt.SInv.fresh D it hi) ops
+  have h3' : r.delivered ++ (rem (SlicedIt.base (R := R) r.it).src).flatMap D.f = (rem it).flatMap D.f := by
+    simpa [SlicedIt.fresh, PipeIt.fresh] using h3
+  exact ⟨r, h1, h3', h2.agg_eq h3'⟩
+
+/-- **C10 for pipelines with a sliced aggregation.**  For every recoverable source, every row-wise chain,
+every set of stacked aggregates and slicers (all five kinds), every history that ends drained: the
+delivered batches are exactly the uninterrupted run's, and the final state map equals the uninterrupted
+run's as a whole — for every output key and every slice key, whether the slice value was seen before a
+checkpoint, after a restore, or both — and so does `agg_result`. -/
+theorem C10_pipeline_sliced (h : Refines R Inv rem) (D : SlicedDef α X S Rv)
+    (hf : ∀ a, (D.f a).length ≤ 1) (it : R.It) (hi : Inv it) (ops : List Op) (k : Nat)
+    (hk : ((rem it).flatMap D.f).length ≤ k) :
+    ∃ r u,
+      SrcRun.run (slicedRec R D) (SrcRun.init (slicedRec R D) (SlicedIt.fresh R D it none)) (ops ++ [.take k]) = .ok r ∧
+      SrcRun.run (slicedRec R D) (SrcRun.init (slicedRec R D) (SlicedIt.fresh R D it none)) [.take k] = .ok u ∧
+      r.delivered = (rem it).flatMap D.f ∧ r.delivered = u.delivered ∧
+      SlicedIt.agg (R := R) r.it = PipeAgg.run D.P ((rem it).flatMap D.f) ∧
+      SlicedIt.agg (R := R) r.it = SlicedIt.agg (R := R) u.it ∧
+      (∀ mk, (SlicedIt.agg (R := R) r.it).toOption.bind (PipeAgg.AList.get? · mk) =
+        (SlicedIt.agg (R := R) u.it).toOption.bind (PipeAgg.AList.get? · mk)) ∧
+      SlicedIt.aggResult (R := R) D r.it = SlicedIt.aggResult (R := R) D u.it := by
+  have href := slicedRec_refines (S := S) h D hf ((rem it).flatMap D.f)
+  have hfr := SlicedIt.SInv.fresh (S := S) (rem := rem) D it hi
+  have key : ∀ ops' : List Op, ∃ r,
+      SrcRun.run (slicedRec R D) (SrcRun.init (slicedRec R D) (SlicedIt.fresh R D it none)) (ops' ++ [.take k]) = .ok r ∧
+      r.delivered = (rem it).flatMap D.f ∧
+      SlicedIt.agg (R := R) r.it = PipeAgg.run D.P ((rem it).flatMap D.f) := by
+    intro ops'
+    obtain ⟨r, r1, r2⟩ := href.history_drained (SlicedIt.fresh R D it none) hfr ops' k
+      (by simpa [SlicedIt.fresh, PipeIt.fresh] using hk)
+    have r2' : r.delivered = (rem it).flatMap D.f := by simpa [SlicedIt.fresh, PipeIt.fresh] using r2
+    obtain ⟨r', q1, q2, q3⟩ := C10_pipeline_sliced_prefix h D hf it hi (ops' ++ [.take k])
+    rw [r1] at q1
+    injection q1 with q1
+    subst q1
+    refine ⟨r, r1, r2', ?_⟩
+    rw [q3, r2']
+  obtain ⟨r, r1, r2, r3⟩ := key ops
+  obtain ⟨u, u1, u2, u3⟩ := key []
+  have e : SlicedIt.agg (R := R) r.it = SlicedIt.agg (R := R) u.it := by rw [r3, u3]
+  refine ⟨r, u, r1, by simpa using u1, r2, by rw [r2, u2], r3, e, fun mk => by rw [e], ?_⟩
+  unfold SlicedIt.aggResult
+  rw [e]
+
+/-- … and that result is what `C02` speaks about: for a pipeline the builder accepts, `agg_result` of the
+resumed run is `PipeAgg.aggResult` of the uninterrupted output stream, so every theorem of
+`Properties/C02.lean` (un-sliced = one-shot, slice keys exact, per-slice = brute-force group-by over the WHOLE
+stream, …) holds for the resumed run verbatim. -/
+theorem C10_pipeline_sliced_result (h : Refines R Inv rem) (D : SlicedDef α X S Rv)
+    (hf : ∀ a, (D.f a).length ≤ 1) (hv : D.P.validate = .ok ()) (it : R.It) (hi : Inv it)
+    (ops : List Op) (k : Nat) (hk : ((rem it).flatMap D.f).length ≤ k) :
+    ∃ r, SrcRun.run (slicedRec R D) (SrcRun.init (slicedRec R D) (SlicedIt.fresh R D it none)) (ops ++ [.take k]) = .ok r ∧
+      SlicedIt.aggResult (R := R) D r.it = PipeAgg.aggResult D.P ((rem it).flatMap D.f) := by
+  obtain ⟨r, _, r1, _, _, _, r3, _⟩ := C10_pipeline_sliced h D hf it hi ops k hk
+  refine ⟨r, r1, ?_⟩
+  unfold SlicedIt.aggResult PipeAgg.aggResult
+  rw [r3, hv]
+  cases PipeAgg.run D.P ((rem it).flatMap D.f) <;> rfl
+
+end sliced
+
+/-- **Chains of runners with sliced aggregations** (any length `n ≥ 1`, every stage its own aggregates and
+slicers; a sliced runner may equally sit on top of / underneath a chain of `Model/ResumeChain.lean` stages,
+since `slicedRec_refines` holds over ANY refined source): at every moment of every history the delivered
+batches followed by what the last iterator will still deliver are the uninterrupted run's, and EVERY stage's
+state map is that of one pass over exactly the prefix of its output stream that the stage has delivered. -/
+theorem C10_pipeline_sliced_chain_prefix {Rv : Type} {R : Recoverable PipeAgg.Batch} {Inv : R.It → Prop}
+    {rem : R.It → List PipeAgg.Batch} (h : Refines R Inv rem)
+    (Ds : List (SlicedDef PipeAgg.Batch X S Rv)) (hf : ∀ D ∈ Ds, ∀ a, (D.f a).length ≤ 1)
+    (it : R.It) (hi : Inv it) (ops : List Op) :
+    ∃ r, SrcRun.run (slicedChainRec R Ds) (SrcRun.init (slicedChainRec R Ds) (slicedChainFresh R Ds it)) ops = .ok r ∧
+      r.delivered ++ slicedChainRem rem Ds r.it = slicedChainOut Ds (rem it) ∧
+      slicedAggsDown R Ds r.it =
+        (Ds.zip (slicedDelivered rem (rem it) Ds r.it)).map (fun p => PipeAgg.run p.1.P p.2) := by
+  obtain ⟨fi, fr⟩ := sliced_chain_fresh (S := S) (Inv := Inv) (rem := rem) it hi Ds
+  obtain ⟨r, r1, r2, r3⟩ := (sliced_chain_refines h (rem it) Ds hf).history (slicedChainFresh R Ds it) fi ops
+  exact ⟨r, r1, by rw [r3, fr], slicedAggsDown_delivered (rem it) Ds r.it r2⟩
+
+/-- **… and when the history ends drained** (the last `take` observes the `StopIteration`): the delivered batches are
+the uninterrupted run's and EVERY stage's final state map — every output key × every slice key of every stage — is that of
+one pass over all the outputs of that stage, hence equal to the uninterrupted run's. -/
+theorem C10_pipeline_sliced_chain {Rv : Type} {R : Recoverable PipeAgg.Batch} {Inv : R.It → Prop}
+    {rem : R.It → List PipeAgg.Batch} (h : Refines R Inv rem)
+    (Ds : List (SlicedDef PipeAgg.Batch X S Rv)) (hf : ∀ D ∈ Ds, ∀ a, (D.f a).length ≤ 1)
+    (it : R.It) (hi : Inv it) (ops : List Op) (k : Nat) (hk : (slicedChainOut Ds (rem it)).length < k) :
+    ∃ r u,
+      SrcRun.run (slicedChainRec R Ds) (SrcRun.init (slicedChainRec R Ds) (slicedChainFresh R Ds it)) (ops ++ [.take k]) = .ok r ∧
+      SrcRun.run (slicedChainRec R Ds) (SrcRun.init (slicedChainRec R Ds) (slicedChainFresh R Ds it)) [.take k] = .ok u ∧
+      r.delivered = slicedChainOut Ds (rem it) ∧ r.delivered = u.delivered ∧
+      slicedAggsDown R Ds r.it = slicedFinalAggs Ds (rem it) ∧
+      slicedAggsDown R Ds r.it = slicedAggsDown R Ds u.it := by
+  obtain ⟨href, hx⟩ := sliced_chain_refines_exh (S := S) h (rem it) Ds hf
+  obtain ⟨fi, fr⟩ := sliced_chain_fresh_exh (S := S) (Inv := Inv) (rem := rem) it hi Ds
+  have key : ∀ ops' : List Op, ∃ r,
+      SrcRun.run (slicedChainRec R Ds) (SrcRun.init (slicedChainRec R Ds) (slicedChainFresh R Ds it)) (ops' ++ [.take k]) = .ok r ∧
+      r.delivered = slicedChainOut Ds (rem it) ∧ slicedAggsDown R Ds r.it = slicedFinalAggs Ds (rem it) := by
+    intro ops'
+    obtain ⟨q, q1, q2, q3, q4⟩ := href.history_drained_exh (slicedChainExh Ds) hx
+      (slicedChainFresh R Ds it) fi ops' k (by rw [fr]; exact hk)
+    exact ⟨q, q1, by rw [q2, fr], slicedAggsDown_final (rem it) Ds q.it q3 q4⟩
+  obtain ⟨r, r1, r2, r3⟩ := key ops
+  obtain ⟨u, u1, u2, u3⟩ := key []
+  exact ⟨r, u, r1, by simpa using u1, r2, by rw [r2, u2], r3, by rw [r3, u3]⟩
+
 /-! ## Chains that buffer (re-batching): the exact loss (finding F16)
 
 Full statement (false for the real code, see `Witness.C10_F16_witness`): as `C10_pipeline_seq` for
@@ -566,5 +712,38 @@ example :
       some ([5, 9], [2, 1, 0], [("a", (20, 5)), ("c", (14, 2))]) := by decide
 example : chainOut threeStages (List.range 5) = [5, 9] := by decide
 example : finalAggs threeStages (List.range 5) = [(14, 2), (8, 2), (20, 5)] := by decide
+
+/-- a SLICED aggregation (`PipeAgg.exPipeline`: two stacked aggregates, a default, a replace-mode and a restricted
+cross slicer) over the three batches of `PipeAgg.exStream` under a history with a second-generation restore, the first
+checkpoint taken after one aggregated batch: the hypotheses of `C10_pipeline_sliced(_result)` hold, and the resumed run
+reports the one-pass values — slice `a = 1` is fed before AND after the checkpoint, slice `a = 2` only after it -/
+def slicedExample : SlicedDef PipeAgg.Batch (List PipeAgg.Val) PipeAgg.Stat PipeAgg.Rv := ⟨fun b => [b], PipeAgg.exPipeline⟩
+example : ∀ a, (slicedExample.f a).length ≤ 1 := fun _ => Nat.le_refl _
+example : slicedExample.P.validate = .ok () := rfl
+example :
+    ((SrcRun.run (slicedRec (seqRec PipeAgg.exStream) slicedExample)
+        (SrcRun.init _ (SlicedIt.fresh _ slicedExample (Src.root 3).iterate none))
+        [.take 1, .ckpt, .restore, .take 1, .ckpt, .restore, .take 100]).toOption.bind fun r =>
+      (SlicedIt.aggResult slicedExample r.it).toOption.map fun res =>
+        (r.delivered.length, PipeAgg.AList.get? res ⟨"o", ⟨["a"], [1]⟩⟩, PipeAgg.AList.get? res ⟨"o", ⟨["a"], [2]⟩⟩)) =
+      some (3, some (.one (.nums [(19, 1), (3, 1)])), some (.one (.nums [(7, 1), (1, 1)]))) := by decide
+example : (PipeAgg.aggResult PipeAgg.exPipeline PipeAgg.exStream).toOption.bind (PipeAgg.AList.get? · ⟨"o", ⟨["a"], [1]⟩⟩)
+    = some (.one (.nums [(19, 1), (3, 1)])) := by decide
+
+/-- a chain of two runners, the upstream one aggregating `y` without slicers, the downstream one the sliced example: both
+stages' state maps after an interrupted history are the one-pass maps -/
+def slicedUp : SlicedDef PipeAgg.Batch (List PipeAgg.Val) PipeAgg.Stat PipeAgg.Rv := ⟨fun b => [b], ⟨[PipeAgg.exAgg2], []⟩⟩
+example : ∀ D ∈ [slicedExample, slicedUp], ∀ a, (D.f a).length ≤ 1 := by
+  intro D hD a
+  simp only [List.mem_cons, List.not_mem_nil, or_false] at hD
+  rcases hD with rfl | rfl <;> exact Nat.le_refl _
+example :
+    ((SrcRun.run (slicedChainRec (seqRec PipeAgg.exStream) [slicedExample, slicedUp])
+        (SrcRun.init _ (slicedChainFresh (seqRec PipeAgg.exStream) [slicedExample, slicedUp] (Src.root 3).iterate))
+        [.take 1, .ckpt, .take 1, .restore, .take 100]).toOption.map fun r =>
+      (r.delivered.length,
+       decide ((slicedAggsDown (seqRec PipeAgg.exStream) [slicedExample, slicedUp] r.it).map Except.toOption =
+         (slicedFinalAggs [slicedExample, slicedUp] PipeAgg.exStream).map Except.toOption))) =
+      some (3, true) := by decide
 
 end MlModel.C10
